@@ -123,6 +123,30 @@ class HSelector:
         return out
 
 
+class PumpingEvent:
+    """transport.write_mode_on for single-threaded harnesses: while the state-machine thread waits for the transport to
+    leave write mode, the transport thread runs (one pass of its real loop body per wait)"""
+
+    def __init__(self, transport):
+        self.transport, self.flag, self.waits = transport, False, 0
+
+    def set(self):
+        self.flag = True
+
+    def clear(self):
+        self.flag = False
+
+    def is_set(self):
+        return self.flag
+
+    def wait(self, timeout=None):
+        self.waits += 1
+        if self.waits > 50:
+            raise HarnessError("write_mode_on.wait() spun 50 times: the transport never left write mode")
+        pump(self.transport)
+        return self.flag
+
+
 def pump(transport):
     """one pass of the real transport thread body (select, then write()/read() as the events say)"""
     transport.selector.passes = 0
@@ -155,9 +179,12 @@ def diameter(role="CLIENT", napps=1, watchdog=3):
 class Node:
     """a Diameter node object with a fresh association on a stand-in transport, tickable one state-machine step at a time"""
 
-    def __init__(self, role="CLIENT", napps=1, watchdog=3, connected=True):
-        self.d = diameter(role, napps, watchdog)
-        self.d._base = self.d.get_base_messages()            # fresh shared base-message objects
+    def __init__(self, role="CLIENT", napps=1, watchdog=3, connected=True, reuse=None):
+        if reuse is not None:
+            self.d = reuse.d                                  # the same node object started again: templates survive
+        else:
+            self.d = diameter(role, napps, watchdog)
+            self.d._base = self.d.get_base_messages()        # fresh shared base-message objects
         self.assoc = S.DiameterAssociation(self.d._connection, self.d._base)
         cls = T.TcpClient if role == "CLIENT" else T.TcpServer
         t = cls(self.d._connection.peer_node.ip_address, self.d._connection.peer_node.port)
@@ -170,6 +197,7 @@ class Node:
         t.is_connected = connected
         if connected:
             self.sel.register(self.sock, selectors.EVENT_READ | (selectors.EVENT_WRITE if role == "CLIENT" else 0))
+        t.write_mode_on = PumpingEvent(t)
         self.transport = t
         self.assoc.transport = t
         self.psm = SM.PeerStateMachine(self.assoc)
